@@ -890,6 +890,27 @@ def run_real(toy: Toy, module: str, pickler: str, ops: list) -> list:
     return [m.step(op) for op in ops]
 
 
+LOCAL_OPS = ('build', 'train', 'apply', 'params', 'setparams', 'setstate', 'setempty', 'preset', 'pickle')
+
+
+def isolation_failure(toy: Toy, module: str, pickler: str, ops: list, r: int) -> typing.Optional[str]:
+    """Lean `C13_instances_isolated` evaluated on the real code (metamorphic, no model involved): in a program that never
+    exports from the instance in register `r` (the sequence is cut before its first `get_state`), removing every
+    operation on that instance must leave every other observation unchanged -- live instances of one definition share
+    nothing but what travels through an exported state or the builder."""
+    ops = ops[:next((i for i, o in enumerate(ops) if o[0] == 'getstate' and o[1] == r), len(ops))]
+    keep = [i for i, o in enumerate(ops) if not (o[0] in LOCAL_OPS and o[1] == r)]
+    if len(keep) == len(ops):
+        return None
+    full = run_real(toy, module, pickler, ops)
+    part = run_real(toy, module, pickler, [ops[i] for i in keep])
+    for j, i in enumerate(keep):
+        if obs_sexp(full[i]) != obs_sexp(part[j]):
+            return (f'op#{i} {op_sexp(ops[i])} gave {full[i]}, but {part[j]} in the same program without the operations on '
+                    f'the live instance in register {r}: {[op_sexp(o) for o in ops[:i + 1]]}')
+    return None
+
+
 def obs_sexp(ob: tuple):
     if ob[0] == 'err':
         return ['err', ob[1]]
@@ -1209,7 +1230,7 @@ def live_checks(toy: Toy, ops: list) -> list:
 
 class C13(fw.Check):
     ID = 'C13'
-    LEAN_MODULES = ['ForML.Props.C13', 'ForML.Props.C13Live']
+    LEAN_MODULES = ['ForML.Props.C13', 'ForML.Props.C13Live', 'ForML.Props.C13Isolation']
     DRIVER = 'drv_c13'
     RULE = ('scenario = actor definition (22 toy definitions: native class fixed/open/mandatory/stateless/with a constructor '
             'argument that is not a hyper-parameter/with user-written naive get_state+set_state, @wrap.Actor.apply fixed/open, '
@@ -2086,6 +2107,18 @@ class C13(fw.Check):
             scenarios.append(self._live_scenario(self.rng.choice(stateful_toys if self.rng.random() < 0.8 else TOYS)))
         for i in range(0, len(scenarios), 500):
             self._run_batch(scenarios[i:i + 500])
+        # live instances are isolated from each other (C13_instances_isolated), evaluated on the real code alone
+        reported = set()
+        for sc in [sc for sc in scenarios if sc.live][:self.n(250, 2500)]:
+            used = sorted({o[1] for o in sc.ops if o[0] in LOCAL_OPS})
+            if len(used) < 2 or sc.toy.name in reported:
+                continue
+            r = self.rng.choice(used)
+            fail = isolation_failure(sc.toy, sc.module, sc.pickler, sc.ops, r)
+            if fail:
+                reported.add(sc.toy.name)
+                self.violate(f'{sc.toy.name} ({sc.toy.kind}, {sc.module}/{sc.pickler}): live instances are not isolated: {fail}',
+                             {**sc.witness(), 'isolated': r}, f'live-isolation-{sc.toy.kind}')
         # related actor classes: hand-picked chains first (stateless base -> stateful subclass -> sub-subclass; stateful
         # base -> subclass overriding train / adding state methods; all shared-origin definitions), then random ones
         corpus = [{'kind': 'chain', 'table': [[None, False, False], [0, True, False], [1, False, False]]},
@@ -2148,6 +2181,9 @@ class C13(fw.Check):
                                 self._signature(sc, chk, obs[m]))
         toy = TOY[w['toy']]
         fixed = ops_from_json(w['ops'])
+        if w.get('isolated') is not None:
+            fail = isolation_failure(toy, w['module'], w['pickler'], fixed, w['isolated'])
+            return fw.Violation(f'{toy.name}: live instances are not isolated: {fail}', w, f'live-isolation-{toy.kind}') if fail else None
         obs = run_real(toy, w['module'], w['pickler'], fixed)
         if not chk:
             return None
